@@ -70,6 +70,7 @@ Alloc(h, contents) == Append(h, contents)
 WriteCell(h, b, c, x) == [h EXCEPT ![b][c] = x]
 Fresh(h, contents, isarr) == [h |-> Alloc(h, contents), o |-> [buf |-> Len(h) + 1, cells |-> [i \in 1..Len(contents) |-> i], arr |-> isarr]]
 
+PowN(ins) == IF ins.op = "sq" THEN 2 ELSE IF ins.op = "recip" THEN -1 ELSE ins.n
 \* ------------------------------------------------------------------ one forward step of instruction ins
 \* v: node values so far, kind: "U" (views) or "A" (integer indexing of a plain array returns a copy)
 \* returns [h, o, sv, ok]; ok = FALSE when the instruction is not defined at these values (division by a zero base)
@@ -107,12 +108,18 @@ Step(h, v, ins, pt, D, kind, oldsaved, refresh) ==
          LET x == TLCEval(Read(h, v[ins.a]))
              r == Fresh(h, [k \in 1..Len(x) |-> CNeg(x[k])], Len(x) > 1)
          IN [h |-> r.h, o |-> r.o, sv |-> <<>>, ok |-> TRUE]
-    [] ins.op = "pow" ->
+    [] ins.op \in {"pow", "sq", "recip"} ->      \* x ** n, square(x), reciprocal(x): three entry points, three pullbacks
          LET x == TLCEval(Read(h, v[ins.a]))
-             ok == ins.n < 0 => \A k \in 1..Len(x) : CNonZero(x[k])
+             n == PowN(ins)
+             ok == n < 0 => \A k \in 1..Len(x) : CNonZero(x[k])
          IN IF ~ok THEN [h |-> h, o |-> NoneV, sv |-> <<>>, ok |-> FALSE]
-            ELSE LET r == Fresh(h, [k \in 1..Len(x) |-> CPow(x[k], ins.n)], Len(x) > 1)
+            ELSE LET r == Fresh(h, [k \in 1..Len(x) |-> CPow(x[k], n)], Len(x) > 1)
                  IN [h |-> r.h, o |-> r.o, sv |-> <<>>, ok |-> TRUE]
+    [] ins.op = "prod" ->     \* product of all elements
+         LET x == TLCEval(Read(h, v[ins.a]))
+             s[k \in 0..Len(x)] == IF k = 0 THEN CConst(ROne, D) ELSE CMul(s[k - 1], x[k])
+             r == Fresh(h, <<s[Len(x)]>>, FALSE)
+         IN [h |-> r.h, o |-> r.o, sv |-> <<>>, ok |-> TRUE]
     [] ins.op = "sum" ->
          LET x == TLCEval(Read(h, v[ins.a]))
              s[k \in 0..Len(x)] == IF k = 0 THEN CZero(D) ELSE CAdd(s[k - 1], x[k])
@@ -123,12 +130,13 @@ Step(h, v, ins, pt, D, kind, oldsaved, refresh) ==
              s[k \in 0..Len(x)] == IF k = 0 THEN CZero(D) ELSE CAdd(s[k - 1], CMul(x[k], y[k]))
              r == Fresh(h, <<s[Len(x)]>>, FALSE)
          IN [h |-> r.h, o |-> r.o, sv |-> <<>>, ok |-> TRUE]
-    [] ins.op = "seta" ->     \* a[...] = b : every cell of the buffer overwritten (values read before any is written)
+    [] ins.op = "seta" ->     \* a[...] = b : every cell of the buffer overwritten (values read before any is written);
+                              \* b an array of the same length, or a scalar that is broadcast to every cell
          LET tgt == v[ins.a]
              old == TLCEval(Read(h, tgt))
              new == TLCEval(Read(h, v[ins.b]))
              RECURSIVE wr(_, _)
-             wr(k, hh) == IF k > N THEN hh ELSE wr(k + 1, WriteCell(hh, tgt.buf, tgt.cells[k], new[k]))
+             wr(k, hh) == IF k > N THEN hh ELSE wr(k + 1, WriteCell(hh, tgt.buf, tgt.cells[k], IF Len(new) = 1 THEN new[1] ELSE new[k]))
          IN [h |-> wr(1, h), o |-> NoneV, sv |-> IF refresh THEN <<0, old>> ELSE oldsaved, ok |-> TRUE]
 
 \* ------------------------------------------------------------------ reference: fresh direct execution of the whole program
@@ -245,10 +253,15 @@ PbStep(k, h, bh, b, V, S) ==
          IN [h |-> h, bh |-> AccInto(bh1, b[ins.b], [i \in 1..Len(zb) |-> BNeg(BMulV(t[i], z[i]))], ins.b)]
     [] ins.op = "neg" ->
          LET zb == TLCEval(Read(bh, b[k])) IN [h |-> h, bh |-> AccInto(bh, b[ins.a], [i \in 1..Len(zb) |-> BNeg(zb[i])], ins.a)]
-    [] ins.op = "pow" ->
+    [] ins.op \in {"pow", "sq", "recip"} ->
          LET zb == TLCEval(Read(bh, b[k]))
              x == TLCEval(Read(h, V[ins.a]))
-         IN [h |-> h, bh |-> AccInto(bh, b[ins.a], [i \in 1..Len(zb) |-> BScalePow(zb[i], x[i], ins.n)], ins.a)]
+         IN [h |-> h, bh |-> AccInto(bh, b[ins.a], [i \in 1..Len(zb) |-> BScalePow(zb[i], x[i], PowN(ins))], ins.a)]
+    [] ins.op = "prod" ->       \* xbar_i += zbar * prod_{j # i} x_j
+         LET zb == TLCEval(Read(bh, b[k]))
+             x == TLCEval(Read(h, V[ins.a]))
+             Oth(i) == LET s[j \in 0..Len(x)] == IF j = 0 THEN zb[1] ELSE IF j = i THEN s[j - 1] ELSE BMulV(s[j - 1], x[j]) IN s[Len(x)]
+         IN [h |-> h, bh |-> AccInto(bh, b[ins.a], [i \in 1..Len(x) |-> Oth(i)], ins.a)]
     [] ins.op = "sum" ->
          LET zb == TLCEval(Read(bh, b[k])) IN
          [h |-> h, bh |-> AccInto(bh, b[ins.a], [i \in 1..Len(b[ins.a].cells) |-> zb[1]], ins.a)]
@@ -265,7 +278,7 @@ Redo(k, h, V) == IF k > Len(prog) THEN h
                    ELSE IF ins.op = "seta" /\ recd[k]
                    THEN LET new == TLCEval(Read(h, V[ins.b]))
                             RECURSIVE wr(_, _)
-                            wr(i, hh) == IF i > N THEN hh ELSE wr(i + 1, WriteCell(hh, V[ins.a].buf, V[ins.a].cells[i], new[i]))
+                            wr(i, hh) == IF i > N THEN hh ELSE wr(i + 1, WriteCell(hh, V[ins.a].buf, V[ins.a].cells[i], IF Len(new) = 1 THEN new[1] ELSE new[i]))
                         IN Redo(k + 1, wr(1, h), V)
                    ELSE Redo(k + 1, h, V)
 \* the whole sweep from seeds ybar (Seq over dependent cells of bar cells) on node values V, saved contents S
@@ -301,6 +314,10 @@ Instrs ==
   \cup (IF "dot" \in Ops THEN {ii \in {Ins("dot", a, b, 0, 0, RZero) : a \in ArrayNodes \cap Usable, b \in ArrayNodes \cap Usable} : ii.a <= ii.b} ELSE {})
   \cup (IF "seta" \in Ops THEN {Ins("seta", a, b, 0, 0, RZero) : a \in {k \in ArrayNodes \cap Usable : prog[k].op = "zeros"},
                                                                   b \in {k \in ArrayNodes \cap Usable : prog[k].op # "zeros"}} ELSE {})
+  \cup (IF "setsc" \in Ops THEN {Ins("seta", a, b, 0, 0, RZero) : a \in {k \in ArrayNodes \cap Usable : prog[k].op = "zeros"},
+                                                                   b \in {k \in ScalarNodes \cap Usable : prog[k].op # "const"}} ELSE {})
+  \cup {Ins(op, a, 0, 0, 0, RZero) : op \in Ops \cap {"sq", "recip"}, a \in {k \in (ScalarNodes \cup ArrayNodes) \cap Usable : prog[k].op # "const"}}
+  \cup (IF "prod" \in Ops THEN {Ins("prod", a, 0, 0, 0, RZero) : a \in ArrayNodes \cap Usable} ELSE {})
   \cup (IF "sum" \in Ops THEN {Ins("sum", a, 0, 0, 0, RZero) : a \in ArrayNodes \cap Usable} ELSE {})
   \cup (IF "const" \in Ops THEN {Ins("const", 0, 0, 0, 0, c) : c \in ConstCat} ELSE {})
 
